@@ -340,7 +340,8 @@ B('C19.scan-from-start-of-input', ['C19'], [(P + 'common/parse.py', "        for
 
 # ---------------------------------------------------------------- mechanical whole-package transformations (sa/selftest_transforms.py)
 for _t in ('swap-if-branches', 'return-via-local', 'nested-if-for-and', 'expand-augassign', 'flip-order-comparisons', 'split-pair-unpacking',
-           'ifexp-to-statement', 'early-exit', 'while-true'):
+           'ifexp-to-statement', 'early-exit', 'while-true', 'condition-via-local', 'negated-membership', 'tuple-return-via-locals',
+           'keyword-arguments', 'comprehension-to-loop'):
     N('benign.mech.' + _t, transform=_t)
 B('C03.exact-size-accepts-one-extra-byte', ['C03'], [(P + 'common/parse.py', "        if len(parsable) > parsed_length:\n            raise TooMuchData(parsed_length)",
                                                        "        if len(parsable) > parsed_length + 1:\n            raise TooMuchData(parsed_length)")], mention=['C03.R1'])
